@@ -61,6 +61,7 @@ def run(ctx):
     c17.open_rules(dep(ctx, "C05", "C17"))
     if fm is not None:
         c14.size_rule(dep(ctx, "C05", "C14"), fm)       # rows sit at header + n * row width: the width is the row's
+    rule_threads_default(ctx, "C05.L", "composition::oligo::OligoComputer")
     from . import c03
     c03.header_line_rule(dep(ctx, "C05", "C03"))          # both writers emit the same header bytes
     for fw_, who_ in ((fm, "oligo::vectorise_mmap"), (fb, "oligo::vectorise_batch")):
